@@ -173,6 +173,22 @@ func (z *Server) appendLog(r Rec) {
 	}
 }
 
+// Seq returns the sequence number of the last log record (a logical clock for client-boundary histories).
+func (z *Server) Seq() int64 {
+	z.mu.Lock()
+	defer z.mu.Unlock()
+	return z.seq
+}
+
+// Tick appends a marker record and returns its sequence number, so that client-boundary events
+// get distinct, totally ordered logical timestamps even when no mutation happens in between.
+func (z *Server) Tick() int64 {
+	z.mu.Lock()
+	defer z.mu.Unlock()
+	z.seq++
+	return z.seq
+}
+
 // Log returns a copy of the server log.
 func (z *Server) Log() []Rec {
 	z.mu.Lock()
